@@ -3,7 +3,8 @@
 The property is itself a decision table; the checker carries it as a specification and
 compares the table extracted from the source (DESIGN.md §6/C13).
 """
-from lib import (walk, nodes, ends, Cfg, src, psrc, outcome, is_ret_none, top_stmts, contains_node, has_return,
+import re
+from lib import (strip_refs, walk, nodes, ends, Cfg, src, psrc, outcome, is_ret_none, top_stmts, contains_node, has_return,
                  pat_top_variants, short, calls_in, block_last)
 
 EXPLANATION = (
@@ -179,6 +180,14 @@ def run(facts, rep, tier):
     st, n = find_pre(lambda n: n.get("k") == "let" and n.get("else") is not None and "VersionReq::parse" in src(n.get("init")))
     ok = st is not None and outcome(n["else"]) == "ret-none" and ext_bind.get("version", "\0") in src(n["init"])
     rep.ob("C13.D2", "malformed:requirement", ok, "let-else on %s returns None" % src(n["init"])[:60] if st else "no let-else on VersionReq::parse(version) before the policy", (n or {}).get("sp"))
+    if st is not None:
+        from lib import Canon as _Canon
+        cnv = _Canon(c, h, 4)
+        pa = [x for x, _ in walk(n["init"]) if x.get("k") == "call" and x.get("fn", "").endswith("VersionReq::parse") and x.get("args")]
+        txt = cnv.r(strip_refs(pa[0]["args"][0])) if pa else ""
+        okv = re.fullmatch(r"from_value\(.*\)~Ok~RustExtension\.version", txt) is not None
+        rep.ob("C13.D2", "requirement-parsed-verbatim", okv, "VersionReq::parse is given the extension's `version` member as written" if okv else
+               "the requirement handed to semver is `%s`, not the extension's `version` string as written: a requirement semver accepts can be rejected (or changed) by the rewriting, so a crate whose configured version satisfies it is not substituted" % txt[:120], (pa[0] if pa else n).get("sp"))
     # (c) missing `::`
     st, n = find_pre(lambda n: n.get("k") == "match" and n.get("src") == "try" and '.find("::")' in src(n))
     rep.ob("C13.D2", "malformed:no-path-separator", st is not None and ext_bind.get("path", "\0") in src(n), "`%s`" % src(n)[:50] if st else "no `path.find(\"::\")?` before the policy", (n or {}).get("sp"))
@@ -279,6 +288,16 @@ def run(facts, rep, tier):
         rep.ob("C13.D4", "name-match-uses-native", block_last(arm["body"]).get("k") == "path", "matching native is used directly: %s" % src(arm["body"])[:40], arm.get("sp"))
         wild = [a for a in mt["arms"] if pat_top_variants(a["pat"]) == ["_"]]
         ok = bool(wild) and any(x.endswith("TypeEntryNewtype::from_metadata") for x in calls_in(wild[0]["body"]))
+        # the predicate itself: equality with the last path segment, not a substring test
+        nmf = [x for x in c.user_fns() if x["fn"].endswith("name_match")]
+        if rep.floor("C13.D4", "name_match", len(nmf), 1):
+            from lib import Canon as _Canon
+            t = _Canon(c, nmf[0], 4).r(nmf[0]["body"])
+            eq = re.search(r"Name::Required\(_\) if \(\S+~Required Eq self\.type_name\.(rsplit\(\"::\"\)\.next\(\)|split\(\"::\"\)\.last\(\))\.unwrap\(\)\)", t) is not None
+            fuzzy = re.search(r"\.(ends_with|starts_with|contains|find)\(", t) is not None
+            rep.ob("C13.D4", "name-match-is-equality-with-last-segment", eq and not fuzzy,
+                   "names match iff the required definition name equals the last segment of the external path (or the type has parameters)" if eq and not fuzzy else
+                   "name_match is `%s`: the definition name is not compared for equality with the last path segment, so a definition whose name merely resembles the external type's loses its transparent newtype and its name disappears from the output" % t[:160], nmf[0].get("sp") or c.fns[nmf[0]["fn"]].get("sp"))
         rep.ob("C13.D4", "mismatch-wraps-newtype", ok, "otherwise a newtype named after the definition wraps it" if ok else "fallthrough does not build a newtype", (wild[0] if wild else mt).get("sp"))
 
 
